@@ -466,6 +466,7 @@ func cmdReflectReplay(args []string) {
 	var ops, rdops []ROp
 	n, bad, reads, states := 0, 0, 0, 0
 	nilOriginsN, nilChecks := 0, 0
+	byOp := map[string]int{} // vacuity scan: (operation, result kind) pairs actually exercised
 	emit := func(v reflVerdict) {
 		bad++
 		b, _ := json.Marshal(v)
@@ -514,7 +515,9 @@ func cmdReflectReplay(args []string) {
 					r := ro
 					emit(reflVerdict{N: states, P: e.P, What: "read", Who: "dynamicpb", Read: &r, Obs: rd, Want: e.Reads[j], Shape: fieldShape(md, ro)})
 				}
-				if rp := applyOp(p.ProtoReflect(), ro, true); !retEq(rp, e.Reads[j]) {
+				rp := applyOp(p.ProtoReflect(), ro, true)
+				byOp[ro.Op+"/"+rp.Kind]++
+				if !retEq(rp, e.Reads[j]) {
 					r := ro
 					emit(reflVerdict{N: states, P: e.P, What: "read", Who: "pulsar", Read: &r, Obs: rp, Want: e.Reads[j], Shape: fieldShape(md, ro)})
 				}
@@ -542,6 +545,7 @@ func cmdReflectReplay(args []string) {
 				op = ops[e.I-1]
 				rp := applyOp(p.ProtoReflect(), op, true)
 				rd := applyOp(d.ProtoReflect(), op, false)
+				byOp[op.Op+"/"+rp.Kind]++
 				shape := fieldShape(md, op)
 				if !retEq(rd, e.Ret) {
 					emit(reflVerdict{N: n, P: e.P, I: e.I, Op: op, What: "ret", Who: "dynamicpb", Obs: rd, Want: e.Ret, Shape: shape})
@@ -570,7 +574,7 @@ func cmdReflectReplay(args []string) {
 			}
 		}
 	}
-	b, _ := json.Marshal(map[string]any{"summary": true, "edges": n, "bad": bad, "ops": len(ops), "rdops": len(rdops), "reads": reads, "states": states, "nil_origins": nilOriginsN, "nil_checks": nilChecks})
+	b, _ := json.Marshal(map[string]any{"summary": true, "edges": n, "bad": bad, "ops": len(ops), "rdops": len(rdops), "reads": reads, "states": states, "nil_origins": nilOriginsN, "nil_checks": nilChecks, "by_op": byOp})
 	w.Write(b)
 	w.WriteByte('\n')
 	_ = fmt.Sprint
